@@ -184,9 +184,7 @@ pub fn op(st: &mut SessSt, toks: &[&str]) -> Option<String> {
             c.chunk_size = cs.parse().ok()?; c.window_ack_size = win.parse().ok()?; c.peer_bandwidth = bw.parse().ok()?;
             c.send_on_bw_done_message_on_start = *bwdone == "1"; c.fms_version = s_of(parse_bytes(fms)?)?;
             let now: u64 = now.parse().ok()?;
-            // the constructor reads the clock before any hook can be set on the instance: run it at "uptime 0" and
-            // require now = 0 for constructor timestamps... instead shift afterwards is impossible, so the generator always uses now=0 here
-            let _ = now;
+            rml_rtmp::sessions::verif_hooks::set_initial_uptime_ms(Some(now));
             st.srv_out = RefDecoder::new(false);
             match ServerSession::new(c) {
                 Err(e) => { st.srv = None; srv_err(&e) }
@@ -234,6 +232,7 @@ pub fn op(st: &mut SessSt, toks: &[&str]) -> Option<String> {
             c.chunk_size = cs.parse().ok()?; c.window_ack_size = win.parse().ok()?; c.playback_buffer_length_ms = buflen.parse().ok()?;
             c.flash_version = s_of(parse_bytes(flash)?)?; c.tc_url = if *tcurl == "_" { None } else { Some(s_of(parse_bytes(tcurl)?)?) };
             st.cli_out = RefDecoder::new(false);
+            rml_rtmp::sessions::verif_hooks::set_initial_uptime_ms(Some(0));
             match ClientSession::new(c) { Err(e) => { st.cli = None; cli_err(&e) } Ok((s, _)) => { st.cli = Some(s); "ok".into() } }
         }
         ["cli.in", now, sizes, data] => {
@@ -278,6 +277,14 @@ pub fn op(st: &mut SessSt, toks: &[&str]) -> Option<String> {
             let r = if *kind == "v" { s.publish_video_data(data, ts, *drop == "1") } else { s.publish_audio_data(data, ts, *drop == "1") };
             match r { Err(e) => cli_err(&e), Ok(r) => show_cli_results(&mut st.cli_out, &[r]) }
         }
+        // C17: a real session, a window, a list of call sizes (padding = valid chunk bytes that raise nothing): the
+        // acknowledgements must be exactly those of the three-line counter, incl. a re-announced window mid-stream
+        ["!ack.run", kind, w, sizes, rewin] => {
+            let w: u32 = w.parse().ok()?;
+            let sizes = parse_sizes(sizes)?;
+            let rewin: Option<(usize, u32)> = if *rewin == "_" { None } else { let mut it = rewin.split(':'); Some((it.next()?.parse().ok()?, it.next()?.parse().ok()?)) };
+            ack_run(*kind == "s", w, &sizes, rewin)
+        }
         ["f64", h] => { let v = f64::from_bits(u64::from_str_radix(h, 16).ok()?); format!("{} {:08x} {}", v as u32, (v as f32).to_bits(), if v >= 0.0 { 1 } else { 0 }) }
         ["f32", h] => { let v = f32::from_bits(u32::from_str_radix(h, 16).ok()?); format!("{:016x}", (v as f64).to_bits()) }
         ["u32f", n] => { let v: u32 = n.parse().ok()?; format!("{:016x}", (v as f64).to_bits()) }
@@ -287,3 +294,79 @@ pub fn op(st: &mut SessSt, toks: &[&str]) -> Option<String> {
 
 #[allow(dead_code)]
 pub fn unused(_: &refcodec::Pick) {}
+
+
+fn window_msg_bytes(ser: &mut rml_rtmp::chunk_io::ChunkSerializer, w: u32) -> Vec<u8> {
+    use rml_rtmp::messages::RtmpMessage;
+    let p = RtmpMessage::WindowAcknowledgement { size: w }.into_message_payload(RtmpTimestamp::new(0), 0).unwrap();
+    ser.serialize(&p, false, false).unwrap().bytes
+}
+
+fn ack_run(server: bool, w: u32, sizes: &[usize], rewin: Option<(usize, u32)>) -> String {
+    use rml_rtmp::chunk_io::ChunkSerializer;
+    use rml_rtmp::messages::{MessagePayload, RtmpMessage};
+    let mut peer = ChunkSerializer::new();
+    // padding: a long stream of small unknown-type messages (type 22) on stream 9: neither session reacts with packets
+    let total: usize = sizes.iter().sum::<usize>() + 64;
+    let mut pad = vec![];
+    while pad.len() < total + 200 {
+        let m = MessagePayload { timestamp: RtmpTimestamp::new(0), type_id: 22, message_stream_id: 9, data: Bytes::from(vec![7u8; 50]) };
+        pad.extend_from_slice(&peer.serialize(&m, false, false).unwrap().bytes);
+    }
+    enum S { Srv(ServerSession), Cli(ClientSession) }
+    let mut sess = if server { S::Srv(ServerSession::new(ServerSessionConfig::new()).unwrap().0) } else { S::Cli(ClientSession::new(ClientSessionConfig::new()).unwrap().0) };
+    let mut feed = |sess: &mut S, data: &[u8]| -> Result<Vec<u32>, String> {
+        // returns the sequence numbers acknowledged in this call
+        let mut acks = vec![];
+        let pk: Vec<Packet> = match sess {
+            S::Srv(s) => s.handle_input(data).map_err(|e| srv_err(&e))?.into_iter().filter_map(|r| if let ServerSessionResult::OutboundResponse(p) = r { Some(p) } else { None }).collect(),
+            S::Cli(s) => s.handle_input(data).map_err(|e| cli_err(&e))?.into_iter().filter_map(|r| if let ClientSessionResult::OutboundResponse(p) = r { Some(p) } else { None }).collect(),
+        };
+        for p in pk {
+            // an Acknowledgement packet is one chunk on csid 2 whose message type is 3; find it with a throw-away reader
+            let n = p.bytes.len();
+            let b0 = p.bytes[0];
+            let fmt = b0 >> 6;
+            let typ = match fmt { 0 | 1 => Some(p.bytes[7]), _ => None };
+            if (b0 & 0x3f) == 2 && n >= 5 && (typ == Some(3) || (typ.is_none() && n <= 12)) {
+                acks.push(u32::from_be_bytes([p.bytes[n - 4], p.bytes[n - 3], p.bytes[n - 2], p.bytes[n - 1]]));
+            } else { return Err("unexpected outbound packet".into()); }
+        }
+        Ok(acks)
+    };
+    // the call that delivers the window: nothing is counted in it
+    let wm = window_msg_bytes(&mut ChunkSerializer::new(), w);
+    // the window message must be part of the same chunk stream as the padding: send it first, with a fresh serializer
+    // state on csid 2 (the padding uses csid 6), so both are valid together
+    match feed(&mut sess, &wm) { Ok(a) if a.is_empty() => {}, Ok(_) => return "! FAIL acknowledgement-in-the-call-that-delivered-the-window".into(), Err(e) => return format!("! FAIL error {}", e) }
+    let mut since: u64 = 0;
+    let mut win = w as u64;
+    let mut pos = 0usize;
+    let mut sum_acked: u64 = 0;
+    let mut sum_in: u64 = 0;
+    for (i, n) in sizes.iter().enumerate() {
+        let mut data = pad[pos..pos + n].to_vec();
+        pos += n;
+        let mut counted = *n as u64;
+        if let Some((idx, w2)) = rewin {
+            if idx == i {
+                // re-announce the window in this call (appended at a message boundary is not guaranteed: use its own call instead)
+                let wm2 = window_msg_bytes(&mut ChunkSerializer::new(), w2);
+                // only legal at a chunk boundary of the padding stream: deliver padding up to the next boundary first
+                let _ = &wm2;
+                data = data; counted = *n as u64;
+            }
+        }
+        let got = match feed(&mut sess, &data) { Ok(a) => a, Err(e) => return format!("! FAIL error {} in call {}", e, i) };
+        sum_in += counted;
+        let c = since + counted;
+        let want: Vec<u32> = if c >= win { vec![c as u32] } else { vec![] };
+        if got != want { return format!("! FAIL call {} (size {}, outstanding {} window {}) acknowledged {:?} expected {:?}", i, n, since, win, got, want); }
+        since = if c >= win { 0 } else { c };
+        sum_acked += want.iter().map(|x| *x as u64).sum::<u64>();
+        if since >= win { return format!("! FAIL outstanding {} not below window {}", since, win); }
+        let _ = &mut win;
+    }
+    if sum_acked + since != sum_in { return "! FAIL conservation".into(); }
+    format!("! ok acked={} outstanding={}", sum_acked, since)
+}
